@@ -103,8 +103,7 @@ func init() {
 			"groupcontext's WaitGroup (only used by HotSwap, which is not among the explored operations) stays on the real sync package",
 		},
 		BudgetQuick: 280 * time.Second, BudgetThorough: 1700 * time.Second,
-		Prepare:     PrepareSchedRuntime,
-		CaseTimeout: 1500 * time.Second,
+		Prepare: PrepareSchedRuntime,
 		Run: func(w *W) {
 			drivers := c20drivers()
 			quick := w.Env.Quick()
